@@ -74,6 +74,10 @@ pub struct Dir {
     pub err_delivered: Option<u64>,
     /// harness tasks waiting for the tap to grow (or the direction to end)
     tap_waiters: Vec<Waker>,
+    /// when false the tap keeps no content, only `tap_total` grows (memory oracles)
+    pub record_tap: bool,
+    /// total bytes ever accepted from the writer
+    pub tap_total: u64,
 }
 
 impl Dir {
@@ -104,6 +108,8 @@ impl Dir {
             eof_delivered: None,
             err_delivered: None,
             tap_waiters: Vec::new(),
+            record_tap: true,
+            tap_total: 0,
         }
     }
     fn wake_tap_waiters(&mut self) {
@@ -135,7 +141,10 @@ pub struct SideIo {
     pub raw: bool,
     pub read_chunk: Chunk,
     pub write_chunk: Chunk,
+    /// co-operative Pending probability (per mille) on reads
     pub yield_pm: u16,
+    /// co-operative Pending probability (per mille) on writes
+    pub wyield_pm: u16,
 }
 
 pub struct Conn {
@@ -502,7 +511,8 @@ fn do_read(conn: &Conn, side: usize, cx: &mut Context<'_>, out: &mut [u8]) -> Po
 
 fn do_write(conn: &Conn, side: usize, cx: &mut Context<'_>, data: &[u8]) -> Poll<io::Result<usize>> {
     let io = conn.io.lock().unwrap()[side];
-    if !io.raw && maybe_yield(io.yield_pm, cx) {
+    if !io.raw && maybe_yield(io.wyield_pm, cx) {
+        conn.dir(side).write_pendings += 1;
         return Poll::Pending;
     }
     let mut dir = conn.dir(side);
@@ -532,9 +542,12 @@ fn do_write(conn: &Conn, side: usize, cx: &mut Context<'_>, data: &[u8]) -> Poll
     let maxn = room.min(data.len());
     let n = if io.raw { maxn } else { chunk(io.write_chunk, maxn) };
     let seq = next_seq();
-    dir.tap.extend_from_slice(&data[..n]);
-    let tl = dir.tap.len();
-    dir.stamps.push((tl, seq));
+    dir.tap_total += n as u64;
+    if dir.record_tap {
+        dir.tap.extend_from_slice(&data[..n]);
+        let tl = dir.tap.len();
+        dir.stamps.push((tl, seq));
+    }
     dir.wake_tap_waiters();
     let w;
     if dir.auto_drain && !dir.latency {
@@ -796,8 +809,8 @@ fn new_conn(label: &str, local: StreamAddr, peer: StreamAddr, raw_connector: boo
     let mut net = rt.net.borrow_mut();
     let p = net.profile;
     let id = net.conns.len();
-    let lib_io = SideIo { raw: false, read_chunk: p.read_chunk, write_chunk: p.write_chunk, yield_pm: p.yield_pm };
-    let raw_io = SideIo { raw: true, read_chunk: Chunk::Whole, write_chunk: Chunk::Whole, yield_pm: 0 };
+    let lib_io = SideIo { raw: false, read_chunk: p.read_chunk, write_chunk: p.write_chunk, yield_pm: p.yield_pm, wyield_pm: p.yield_pm };
+    let raw_io = SideIo { raw: true, read_chunk: Chunk::Whole, write_chunk: Chunk::Whole, yield_pm: 0, wyield_pm: 0 };
     let conn = Arc::new(Conn {
         id,
         label: label.to_string(),
